@@ -32,8 +32,8 @@ func init() {
 // invocation and fails or loses the k-th one.
 type injector struct {
 	n      int
-	at     int    // -1: none
-	mode   string // "fail" | "conflict"
+	at     int         // -1: none
+	mode   string      // "fail" | "conflict"
 	before func(k int) // pre-emption hook, called before effect k
 }
 
@@ -328,10 +328,11 @@ var failureCodes = map[string]codes.Code{
 
 // Result is what one Reconcile returned.
 type Result struct {
-	Requeue string
-	Err     bool
-	Effects int
-	Panic   string
+	Requeue  string
+	Err      bool
+	Effects  int
+	Attempts int // southbound Set calls made, whatever the answer
+	Panic    string
 }
 
 // Run performs one Reconcile(id) of the real reconciler.
@@ -367,6 +368,12 @@ func (s *Sys) Run(id string, o RunOpts) (res Result) {
 		case o.Dev == "retry":
 			s.Devs.SkipLog = true
 			return GrpcErr(codes.Unavailable)
+		case o.Dev == "retry:CANCELED":
+			s.Devs.SkipLog = true
+			return GrpcErr(codes.Canceled)
+		case o.Dev == "retry:TIMEOUT":
+			s.Devs.SkipLog = true
+			return GrpcErr(codes.DeadlineExceeded)
 		case o.Dev == "wait":
 			s.Devs.SkipLog = true
 			return GrpcErr(codes.PermissionDenied)
@@ -385,6 +392,7 @@ func (s *Sys) Run(id string, o RunOpts) (res Result) {
 			res.Panic = fmt.Sprint(r)
 		}
 		res.Effects = s.inj.n
+		res.Attempts = sent
 	}()
 	f := strings.Split(id, ":")
 	var r controller.Result
